@@ -14,7 +14,9 @@ def main():
         print("repo not clean"); sys.exit(2)
     want = sys.argv[1:]
     results = {}
-    for patch in sorted(glob.glob("/verif/neutral/N*/patch*.diff")):
+    if want and os.path.exists("/verif/neutral/results.json"):
+        results = json.load(open("/verif/neutral/results.json"))
+    for patch in sorted(glob.glob("/verif/neutral/[NM]*/patch*.diff")):
         g = patch.split("/")[-2]; name = g + "/" + os.path.basename(patch)
         if want and g not in want: continue
         rc, out = sh("git apply --check %s" % patch)
